@@ -33,6 +33,19 @@ def r1_containment(ck, cx, tier):
                 ck.ob('R1', f.qn, 'after a framer exception the handler resets the framer or ends the connection', rp.reset or rp.stops,
                       detail='no-reset-after %s' % rp.raised[0], loc=cx.floc(f),
                       message='%s: after %s from the framer neither resetFrame() nor a connection stop happens: stale bytes poison later frames' % (fe[0], rp.raised[0]))
+        if fe[0] == 'asyncio-datagram':
+            # one handler task serves every peer of the endpoint (confirmed below): ending it on a bad datagram ends the service
+            srv = cx.idx.cls('pymodbus.server.async_io.ModbusUdpServer')
+            shared = any(isinstance(x, ast.Call) and callee_name(x) == 'create_datagram_endpoint' for m_ in srv.methods.values() for x in ast.walk(m_.node))
+            if not shared:
+                raise AnalysisError('asyncio UDP server no longer builds a datagram endpoint: the shared-handler instance of R1 has lost its anchor')
+            for rp in rps:
+                if rp.raised is None or 'processIncomingPacket' not in rp.raised[1] or (rp.exit and rp.exit[0] == 'exc'):
+                    continue
+                ck.ob('R1', f.qn, 'a datagram that makes the framer raise does not end the shared serving task', not rp.stops,
+                      detail='shared-datagram-handler-stops-on %s' % rp.raised[0], loc=cx.floc(f),
+                      message='asyncio-datagram: after %s from the framer the handler stops (running = False / transport closed); this one task serves '
+                              'every peer of the UDP endpoint, so one bad datagram silences the server for all of them' % rp.raised[0])
         if twisted:
             ck.assume('%s: exceptions from %s are contained by the Twisted reactor (tcp.Connection.doRead / udp.Port.doRead log and drop)' % (fe[0], f.name))
     ck.floor('R1', n, 15, 'exceptional receive-loop paths')
